@@ -201,6 +201,11 @@ struct R3Monitor {
     if (it != m.end() && it->second.t.size() == 1) m.erase(it);
   }
 
+  bool acked(int node, coap_session_t *s, coap_mid_t mid) {
+    auto it = m.find(Key{node, cx::local_of(s), cx::remote_of(s), (int)mid & 0xffff});
+    return it != m.end() && (it->second.t_ack || it->second.t_resp);
+  }
+
   void session_gone(int node, simk::Addr local, simk::Addr remote) {
     for (auto &kv : m)
       if (kv.first.node == node && kv.first.src == local && kv.first.dst == remote) kv.second.session_gone = true;
